@@ -70,21 +70,50 @@ def walk(stmts, guard: str, out: list):
         raise Unsupported("statement: " + ast.unparse(st)[:200])
 
 
-def init_ok(st) -> bool:
-    return isinstance(st, ast.Assign) and ast.unparse(st).replace(" ", "").replace("(before,after)", "before,after") \
-        .replace("(CommandList(),CommandList())", "CommandList(),CommandList()") == "before,after=CommandList(),CommandList()"
+def split_init(body: list) -> list:
+    """Skip a docstring and the statements that create the two command lists (`before, after = CommandList(),
+    CommandList()` in one statement or two, in either order); return the rest of the body.  Anything else that
+    comes before both lists exist is not recognised (fail closed)."""
+    rest = list(body)
+    if rest and isinstance(rest[0], ast.Expr) and isinstance(rest[0].value, ast.Constant) and isinstance(rest[0].value.value, str):
+        rest = rest[1:]
+    made: set = set()
+
+    def is_new_list(e) -> bool:
+        return isinstance(e, ast.Call) and ast.unparse(e.func) == "CommandList" and not e.args and not e.keywords
+
+    while rest and made != {"before", "after"}:
+        st = rest[0]
+        if not (isinstance(st, ast.Assign) and len(st.targets) == 1):
+            break
+        t, v = st.targets[0], st.value
+        if isinstance(t, ast.Name) and t.id in ("before", "after") and is_new_list(v):
+            made.add(t.id)
+        elif isinstance(t, ast.Tuple) and isinstance(v, ast.Tuple) and len(t.elts) == len(v.elts) \
+                and all(isinstance(x, ast.Name) and x.id in ("before", "after") for x in t.elts) and all(is_new_list(x) for x in v.elts):
+            made.update(x.id for x in t.elts)
+        else:
+            break
+        rest = rest[1:]
+    if made != {"before", "after"}:
+        raise Unsupported("the function does not start by creating `before` and `after` as CommandList()")
+    return rest
+
+
+def returns_lists(st) -> bool:
+    return isinstance(st, ast.Return) and st.value is not None and \
+        ast.unparse(st.value).replace(" ", "").strip("()") == "before,after"
 
 
 def ap_env(repo: Path) -> list:
     """aruba/ap_env.py:apply — init; statements adding commands; return (before, after)."""
     mod = ast.parse((repo / "annet" / "rulebook" / "aruba" / "ap_env.py").read_text())
     fn = next(n for n in mod.body if isinstance(n, ast.FunctionDef) and n.name == "apply")
-    body = list(fn.body)
-    if not init_ok(body[0]) or not isinstance(body[-1], ast.Return) or \
-            ast.unparse(body[-1].value).replace(" ", "").strip("()") != "before,after":
+    body = split_init(list(fn.body))
+    if not body or not returns_lists(body[-1]):
         raise Unsupported("aruba.ap_env.apply is no longer: init; ...; return (before, after)")
     cmds: list = []
-    walk(body[1:-1], "BTrue", cmds)
+    walk(body[:-1], "BTrue", cmds)
     return cmds
 
 
@@ -130,12 +159,10 @@ def translate(repo: Path):
     src = (repo / "annet" / "annlib" / "rulebook" / "common.py").read_text()
     mod = ast.parse(src)
     fn = next(n for n in mod.body if isinstance(n, ast.FunctionDef) and n.name == "apply")
-    body = list(fn.body)
-    if not init_ok(body[0]):
-        raise Unsupported("first statement")
-    chain = body[1]
-    if not isinstance(chain, ast.If) or not isinstance(body[2], ast.Return) or len(body) != 3:
+    body = [None] + split_init(list(fn.body))
+    if len(body) != 3 or not isinstance(body[1], ast.If) or not isinstance(body[2], ast.Return):
         raise Unsupported("apply() is no longer: init; if-chain; return")
+    chain = body[1]
     branches = []
     node = chain
     while True:
@@ -148,7 +175,7 @@ def translate(repo: Path):
         if not (len(node.orelse) == 1 and isinstance(node.orelse[0], ast.Raise)):
             raise Unsupported("else branch is not a raise")
         break
-    if ast.unparse(body[2].value).replace(" ", "").strip("()") != "before,after":
+    if not returns_lists(body[2]):
         raise Unsupported("apply() does not return (before, after)")
     ap = ap_env(repo)
     timeout, logic = deploy_defaults(repo)
